@@ -303,11 +303,25 @@ func runCheck(P *Program, DB *ContractDB, prop, tier string, only string) *check
 			// functions that contain such a call site but have no contract are verified
 			// with an implicit empty contract: the callee's requires-clauses decide
 			for _, fname := range callSiteOwners(P, cs) {
-				if k := DB.Funcs[fname]; k != nil {
+				saved := DB.Funcs[fname]
+				if saved != nil && (saved.hasProp(prop) || saved.Kind != "func") {
 					continue
 				}
 				k := &FuncContract{Kind: "func", Name: fname, Pkg: pkgOfQual(fname), Props: []string{prop}, Flags: map[string]bool{"implicit": true}, Loops: map[int]*LoopSpec{}, ModAll: true, HasMod: true}
+				if saved != nil {
+					// under contract for other properties only: verified here with an implicit
+					// contract that keeps its preconditions; the callee's requires-clauses decide
+					k.Requires, k.Params, k.Lets = saved.Requires, saved.Params, saved.Lets
+					for f, v := range saved.Flags {
+						k.Flags[f] = v
+					}
+					k.Loops = saved.Loops
+				}
+				callSiteImplicit[fname] = true
 				DB.Funcs[fname] = k
+				if saved != nil {
+					defer func(n string, c *FuncContract) { DB.Funcs[n] = c }(fname, saved)
+				}
 				var rep *FuncReport
 				func() {
 					defer func() {
@@ -1156,6 +1170,7 @@ func cmdReplay(args []string) int {
 }
 
 var verifiedImplicit = map[string]bool{}
+var callSiteImplicit = map[string]bool{}
 
 // guardedOwners: module functions with a load or store through the address of the guarded field.
 func guardedOwners(P *Program, gd *GuardedDecl) []string {
